@@ -277,7 +277,9 @@ func compareRPMDigits(a, b string) int {
 	}
 
 	// Fallback for very large numbers that don't fit in uint64
-	// Compare by length first (longer number is larger)
+	// Compare by length first (longer number is larger), leading zeros aside
+	a = strings.TrimLeft(a, "0")
+	b = strings.TrimLeft(b, "0")
 	if len(a) < len(b) {
 		return -1
 	}
